@@ -47,13 +47,13 @@ def tables_json(layouts):
             for tid, cols in layouts.items()]
 
 
-def make_file(r, layouts, expanded, enc, blocked, trailer=True, nrows=None, noconf='IP9999T1', grouped=None):
+def make_file(r, layouts, expanded, enc, blocked, trailer=True, nrows=None, noconf='IP9999T1', grouped=None, subspace=1000):
     tids = list(layouts) + [noconf]          # one table present in the file without configuration
     subs = {}
     for t in tids:
-        s = '%03d' % r.randrange(1000)
+        s = '%03d' % r.randrange(subspace)
         while s in subs.values():
-            s = '%03d' % r.randrange(1000)
+            s = '%03d' % r.randrange(subspace)
         subs[t] = s
     rows = []
     for t in tids:          # index rows
@@ -66,9 +66,9 @@ def make_file(r, layouts, expanded, enc, blocked, trailer=True, nrows=None, noco
     if r.random() < 0.5:
         # one table listed under a second sub id as well (its rows use both)
         twice = r.choice(list(layouts))
-        s2 = '%03d' % r.randrange(1000)
+        s2 = '%03d' % r.randrange(subspace)
         while s2 in subs.values():
-            s2 = '%03d' % r.randrange(1000)
+            s2 = '%03d' % r.randrange(subspace)
         row = list(('%-300s' % ('2024002IDX' + twice[-4:])))
         row[11:19] = 'IP0000T1'
         row[19:27] = twice
@@ -157,6 +157,12 @@ def _drive(args):
             enc = 'ascii'
         blocked = bool(tid & 1)
         expanded = bool(tid & 2)
+        subspace = 1000
+        if tid >= 2000:
+            # files of the lock-step pairs: mostly compressed, and sub ids handed out from 000 upwards the way production
+            # extracts number them - the same sub id means another table in the partner's file
+            expanded = tid % 4 == 3
+            subspace = len(layouts) + 4
         trailer = tid % 17 != 5
         # the table that is in the file but not in the caller's configuration: an unknown id, or (caller-supplied
         # configurations only) an id that the PACKAGED configuration knows - the caller's configuration is what counts
@@ -171,7 +177,7 @@ def _drive(args):
             names = list(layouts)
             grouped = {names[0]: 1150, names[1]: 3, names[-1]: 1150 if len(names) > 2 else 3, noconf: 1100}
             trailer = True
-        fdata = make_file(r, layouts, expanded, enc, blocked, trailer, nrows=50 if tid % 10 == 0 else 8, noconf=noconf, grouped=grouped)
+        fdata = make_file(r, layouts, expanded, enc, blocked, trailer, nrows=50 if tid % 10 == 0 else 8, noconf=noconf, grouped=grouped, subspace=subspace)
         tables = list(layouts) + ([noconf] if tid % 7 == 3 or noconf != 'IP9999T1' else [])
         for table in tables:
             via_csv = (tid + len(table) + tables.index(table)) % 3 == 0 and table in layouts
